@@ -20,7 +20,7 @@ RULE = ("every rule x method of the live url_map (HEAD included, automatic OPTIO
 ASSUMPTIONS = ["headers that contain the exact token as a whitespace-delimited word (e.g. 'Basic <token>', 'Bearer  <token>') are recorded, not judged: they do present the token",
                "'changes nothing' is decided on the enumerated fingerprint; the log file is outside it",
                "Flask test client, not a socket server"]
-REQUIRED = {"refused_after_authorised": 500, "requests_refused": 3000, "fingerprint_comparisons": 3000, "control_served": 10, "rules_enumerated": 15}
+REQUIRED = {"parts_with_held_app_context": 8, "refused_after_authorised": 500, "requests_refused": 3000, "fingerprint_comparisons": 3000, "control_served": 10, "rules_enumerated": 15}
 BUDGET_S = {"quick": 110, "thorough": 900}
 TOKEN = "Tok3n-ab+c.DEF|alt"        # (characters that mean something to pattern languages are ordinary characters of a secret)
 OTHER_TOKEN = "0ther-Server.t0ken"
@@ -104,6 +104,14 @@ def run_case(case):
     w = None
     with clock:
         app, c, ids, sd = build(case["state"], tmp)
+        held = None
+        if case["part"] % 2 == 1:
+            # the embedding program holds an application context of this server open around all requests (a start script that pushed one,
+            # a batch inside `with app.app_context()`): flask.g then lives across requests. One authorised request is served first.
+            held = app.app_context()
+            held.push()
+            app.test_client().get("/scenarios", headers={"Authorization": "Bearer " + TOKEN})
+            counters["parts_with_held_app_context"] = 1
         try:
             rules = sorted(app.url_map.iter_rules(), key=lambda r: r.rule)
             counters["rules_enumerated"] = len([r for r in rules if r.endpoint != "static"])
@@ -225,6 +233,11 @@ def run_case(case):
                     if c.get(p).status_code != 200:
                         w = w or dict(kind="public-endpoint-refused", path=p)
         finally:
+            if held is not None:
+                try:
+                    held.pop()
+                except Exception:
+                    pass
             srv.destroy_server(app)
             for o_ in getattr(app, "_verif_other_servers", []):
                 srv.destroy_server(o_)
